@@ -187,6 +187,34 @@ example : selectSpec ⟨false, false⟩ (coversPat ⟨false, false⟩) exTokens 
     selectSpec ⟨false, false⟩ (coversPat ⟨false, false⟩) exTokens (b "/x/adm/7/") = some ⟨4, true⟩ ∧
     selectSpec ⟨false, false⟩ (coversPat ⟨false, false⟩) exTokens (b "/") = none := by decide
 
+/-- **Two paths.** `mountPrefixLen` hands `getMatch` the detection path (lower-cased unless
+CaseSensitive: what the pattern is matched on) AND the path as sent (what the parameter values are
+cut from and the constraints are checked on) — `cutMatches … det path`, as the router does
+(`Route.match(detectionPath, path, …)`), and as the spec's router reading does (`RoutePatternMatch`
+lower-cases a copy, `rpm_eq_getMatch`: `getMatch chk segs (fold cfg p) p`). The two are not
+interchangeable: a mount at `/:flag<bool>` (Go's ParseBool literals are case sensitive: `TRUE`,
+`True`, `true`, not `tRUE`), default configuration. For `/tRUE/e` the router does not enter the
+mounted app and the prefix does not contain the path; feeding the detection path twice would say
+it does. For `/TRUE/e` both agree. -/
+theorem constraints_checked_on_path_as_sent :
+    (parseKey ⟨false, false⟩ (b "/:flag<bool>")).bind
+      (fun segs => mountPrefixLen (C02.checkConstraint [] (fun _ _ => true)) segs (detOf ⟨false, false⟩ (b "/tRUE/e")) (b "/tRUE/e"))
+      = none ∧
+    (parseKey ⟨false, false⟩ (b "/:flag<bool>")).bind
+      (fun segs => mountPrefixLen (C02.checkConstraint [] (fun _ _ => true)) segs (detOf ⟨false, false⟩ (b "/tRUE/e"))
+        (detOf ⟨false, false⟩ (b "/tRUE/e")))
+      = some 5 ∧
+    (parseKey ⟨false, false⟩ (b "/:flag<bool>")).bind
+      (fun segs => mountPrefixLen (C02.checkConstraint [] (fun _ _ => true)) segs (detOf ⟨false, false⟩ (b "/TRUE/e")) (b "/TRUE/e"))
+      = some 5 ∧
+    select (C02.checkConstraint [] (fun _ _ => true)) ⟨false, false⟩
+      [⟨[], some ⟨0, false⟩⟩, ⟨b "/:flag<bool>", some ⟨1, false⟩⟩] (b "/tRUE/e") = none ∧
+    selectSpec ⟨false, false⟩ (coversRouter (C02.checkConstraint [] (fun _ _ => true)) ⟨false, false⟩)
+      [⟨[], some ⟨0, false⟩⟩, ⟨b "/:flag<bool>", some ⟨1, false⟩⟩] (b "/tRUE/e") = none ∧
+    select (C02.checkConstraint [] (fun _ _ => true)) ⟨false, false⟩
+      [⟨[], some ⟨0, false⟩⟩, ⟨b "/:flag<bool>", some ⟨1, false⟩⟩] (b "/TRUE/e") = some ⟨1, false⟩ := by
+  decide
+
 /-- no key of the table is a route pattern -/
 def LiteralTable (l : List Mounted) : Prop := l.all (fun m => !isPattern m.pre) = true
 
